@@ -42,6 +42,7 @@ fn mk(property: &str, mode: &str, label: &str, cfg: Cfg, prefix: Vec<Op>, alphab
         reopen_end: false,
         vacuum_end: false,
         reopen_cfg: None,
+        oom_tolerant: false,
     };
     let p = CrashParams { seq, mode: mode.into(), nested, triggers: ids.iter().filter(|s| s.starts_with("KT-")).cloned().collect() };
     Search {
@@ -79,6 +80,28 @@ fn committed_alphabet() -> Vec<Op> {
     ]
 }
 
+/// Seed state + alphabet in which one transaction's log records straddle the end of block zero: its
+/// commit force writes the numbered blocks first and block zero (header + oldest records) last.
+fn straddling() -> (Vec<Op>, Vec<Op>) {
+    let mut pre5 = prefix_basic();
+    for (n, c) in ['P', 'Q', 'R'].iter().enumerate() {
+        pre5.push(Op::Auto(Stmt::Insert { table: "t".into(), rows: vec![vec![i(20 + n as i128), tx(&big(*c))]] }));
+    }
+    let bigrow = |k: i128, c: char| Stmt::Insert { table: "t".into(), rows: vec![vec![i(k), tx(&big(c))]] };
+    let alpha5 = vec![
+        Op::Begin(1),
+        Op::In(1, bigrow(30, 'U')),
+        Op::In(1, bigrow(31, 'V')),
+        Op::In(1, ins(5, "e")),
+        Op::In(1, del(1)),
+        Op::Commit(1),
+        Op::Auto(ins(2, "b")),
+        Op::Auto(Stmt::Insert { table: "t".into(), rows: vec![vec![i(40), tx(&big('W'))], vec![i(41), tx(&big('X'))], vec![i(42), tx("y")]] }),
+        Op::Flush,
+    ];
+    (pre5, alpha5)
+}
+
 fn prefix_basic() -> Vec<Op> {
     vec![Op::Auto(Stmt::CreateTable(t_text())), Op::Auto(ins(1, "a"))]
 }
@@ -105,6 +128,8 @@ pub fn c01(tier: &str) -> i32 {
         pre3.push(Op::Auto(Stmt::Insert { table: "t".into(), rows: vec![vec![i(20 + n as i128), tx(&big(*c))]] }));
     }
     searches.push(mk("C01", "C01", "seed: log block zero about 90% full", Cfg::default(), pre3, committed_alphabet(), if quick { 2 } else { 4 }, if quick { 3_000 } else { 200_000 }, false));
+    let (pre5, alpha5) = straddling();
+    searches.push(mk("C01", "C01", "seed: log block zero about 70% full; transactions of several multi-page rows whose records straddle the block boundary", Cfg::default(), pre5, alpha5, if quick { 4 } else { 6 }, if quick { 20_000 } else { 300_000 }, false));
     // table with a unique index on k: the recovered rows must also be found through the index
     let pre4 = vec![Op::Auto(Stmt::CreateTable(t_text().with_unique(&["k"]))), Op::Auto(ins(1, "a"))];
     let alpha4 = vec![
@@ -166,6 +191,8 @@ pub fn c02(tier: &str) -> i32 {
         pre.push(Op::Auto(ins(9, "i")));
         let alpha_u = vec![
             Op::Auto(ins(2, "b")),
+            // fails on its second row (duplicate key 9) after the first row has been written to a page
+            Op::Auto(Stmt::Insert { table: "t".into(), rows: vec![vec![i(3), tx("c")], vec![i(9), tx("dup")]] }),
             Op::Auto(del(1)),
             Op::Begin(1),
             Op::In(1, ins(5, "e")),
@@ -179,6 +206,12 @@ pub fn c02(tier: &str) -> i32 {
             Op::Flush,
         ];
         searches.push(mk("C02", "C02", "table with a unique index: losers and committed work, recovered rows also looked up by key", Cfg::default(), pre, alpha_u, if quick { 4 } else { 5 }, if quick { 20_000 } else { 300_000 }, false));
+    }
+    {
+        let (pre5, mut alpha5) = straddling();
+        alpha5.push(Op::Rollback(1));
+        alpha5.push(Op::DropSession(1));
+        searches.push(mk("C02", "C02", "seed: log block zero about 70% full; committed, rolled-back and open transactions whose records straddle the block boundary", Cfg::default(), pre5, alpha5, if quick { 4 } else { 5 }, if quick { 20_000 } else { 300_000 }, false));
     }
     run_searches(
         "C02",
@@ -197,6 +230,11 @@ pub fn c08(tier: &str) -> i32 {
     alpha.push(Op::In(1, del(1)));
     let mut searches = vec![];
     searches.push(mk("C08", "C08", "every crash image opens, repeated opens change nothing, recovery interrupted at every one of its own writes converges", Cfg::default(), prefix_basic(), alpha, if quick { 3 } else { 4 }, if quick { 20_000 } else { 100_000 }, true));
+    {
+        let (pre5, mut alpha5) = straddling();
+        alpha5.push(Op::Rollback(1));
+        searches.push(mk("C08", "C08", "seed: log block zero about 70% full; transactions whose records straddle the block boundary", Cfg::default(), pre5, alpha5, if quick { 3 } else { 4 }, if quick { 5_000 } else { 100_000 }, true));
+    }
     run_searches(
         "C08",
         tier,
